@@ -82,6 +82,9 @@ type Options struct {
 	// itself needs a P2P server and subscribes for the life of the process, so it
 	// cannot be instantiated once per behaviour).
 	PoolGlue bool
+	// Foundation, when set, receives the genesis block's coinbase (33 M ELA): funds
+	// for deposits.  Applied before the genesis block is built.
+	Foundation *common.Uint168
 }
 
 type Node struct {
@@ -117,7 +120,12 @@ func New(opt Options) (*Node, error) {
 	}
 	// every node gets its own parameter object; the package-level
 	// config.DefaultParams (read by a few helpers) is set once in InitGlobals
-	params := config.GetDefaultParams().RegNet().InstantBlock().Sterilize()
+	params := config.GetDefaultParams().RegNet().InstantBlock()
+	if opt.Foundation != nil {
+		params.FoundationAddress = ""
+		params.FoundationProgramHash = opt.Foundation
+	}
+	params = params.Sterilize()
 	params.DataDir = dir
 	params.CheckRewardHeight = 0
 	params.PowConfiguration.CoinbaseMaturity = 1
